@@ -297,3 +297,107 @@ def r12_struct(src, keep=None, drop=None):
 
 def r12_enum(src):
     return "pub " + re.sub(r"^\s*pub(\([^)]*\))?\s+", "", strip_attrs_and_docs(src)).strip() + "\n"
+
+
+# --------------------------------------------------------------------------------------
+# R8: closure schemas
+# --------------------------------------------------------------------------------------
+def _split_top(st, lo, hi, sep=","):
+    parts, cur, i = [], lo, lo
+    while i < hi:
+        if st[i].text in OPEN:
+            i = match_close(st, i)
+        elif st[i].text == "<" and i > lo and st[i - 1].kind == "ident" and st[i - 1].text[0].isupper():
+            i = skip_generics(st, i) - 1
+        elif st[i].text == sep:
+            parts.append((cur, i)); cur = i + 1
+        i += 1
+    if cur < hi:
+        parts.append((cur, hi))
+    return parts
+
+
+def r8_closure(src, sites, fnkey):
+    """sites: [{recv, method, to, types:[..], by_ref: bool(default true), only:[fn..]}].
+    `.method(|P0, P1| BODY)` with receiver ending in `recv` becomes
+    `.to(Ghost(|a0: T0, a1: T1| { let P0 = &a0; let P1 = &a1; BODY }))` — BODY is lifted verbatim."""
+    total = 0
+    for site in sites:
+        if site.get("only") and fnkey not in site["only"]:
+            continue
+        while True:
+            st = sig(lex(src))
+            edit = None
+            for i, t in enumerate(st):
+                if t.kind == "ident" and t.text == site["method"] and i >= 2 and st[i - 1].text == "." \
+                        and i + 2 < len(st) and st[i + 1].text == "(" and st[i + 2].text in ("|", "||"):
+                    # receiver: identifier before the dot (skipping a trailing call like `.iter()`)
+                    r = i - 2
+                    if st[r].text == ")":
+                        # e.g. x.iter().position(...)
+                        op = r
+                        depth = 0
+                        while op >= 0:
+                            if st[op].text == ")":
+                                depth += 1
+                            elif st[op].text == "(":
+                                depth -= 1
+                                if depth == 0:
+                                    break
+                            op -= 1
+                        chain = st[op - 1].text
+                        r2 = op - 3
+                        recv = st[r2].text if r2 >= 0 else ""
+                        if site.get("via") != chain:
+                            continue
+                        recv_start = r2
+                    else:
+                        if site.get("via"):
+                            continue
+                        recv = st[r].text
+                        recv_start = r
+                    if recv != site["recv"]:
+                        continue
+                    close = match_close(st, i + 1)
+                    if st[i + 2].text == "||":
+                        params = []
+                        body_lo = i + 3
+                    else:
+                        j = i + 3
+                        while st[j].text != "|":
+                            if st[j].text in OPEN:
+                                j = match_close(st, j)
+                            j += 1
+                        params = _split_top(st, i + 3, j)
+                        body_lo = j + 1
+                    body = src[st[body_lo].start:st[close - 1].end]
+                    types = site.get("types", [])
+                    if len(params) != len(types):
+                        raise Undecided(f"unsupported construct: closure at .{site['method']} in {fnkey} has {len(params)} params, schema expects {len(types)}")
+                    lets = []
+                    for k, (a, b) in enumerate(params):
+                        pat = src[st[a].start:st[b - 1].end]
+                        amp = "&" if site.get("by_ref", True) else ""
+                        lets.append(f"let {pat} = {amp}a{k};")
+                    ps = ", ".join(f"a{k}: {ty}" for k, ty in enumerate(types))
+                    extra = site.get("extra_args", "")
+                    if site.get("via"):
+                        # x.iter().position(|..| ..)  ->  std_position(&x, Ghost(..))
+                        start = st[recv_start].start
+                        # include leading path `self.a.b`
+                        q = recv_start
+                        while q >= 2 and st[q - 1].text == "." and st[q - 2].kind == "ident":
+                            q -= 2
+                        start = st[q].start
+                        recv_txt = src[st[q].start:st[recv_start].end]
+                        rep = f"{site['to']}(&{recv_txt}, Ghost(|{ps}| {{ {' '.join(lets)} {body} }}){extra})"
+                        edit = (start, st[close].end, rep)
+                    else:
+                        rep = f"{site['to']}(Ghost(|{ps}| {{ {' '.join(lets)} {body} }}){extra})"
+                        edit = (t.start, st[close].end, rep)
+                    break
+            if edit is None:
+                break
+            src = _rebuild(src, [edit])
+            total += 1
+    return src, total
